@@ -29,6 +29,20 @@
 #include <unordered_set>
 #include <vector>
 
+#ifdef GLMX_SANITIZE
+// Sanitizer-as-oracle (C20): the UBSan / ASan runtimes call these weak hooks in the thread that executed the
+// undefined behaviour; the engine attributes the report to the (op, input) being evaluated.
+extern "C" void __ubsan_get_current_report_data(const char** OutIssueKind, const char** OutMessage, const char** OutFilename, unsigned* OutLine, unsigned* OutCol, char** OutMemoryAddr);
+namespace glmx { static thread_local int g_san_reports = 0; static thread_local char g_san_msg[200]; static thread_local unsigned g_san_line = 0; }
+extern "C" void __ubsan_on_report(void) {
+  const char *kind = "", *msg = "", *file = ""; unsigned line = 0, col = 0; char* addr = nullptr;
+  __ubsan_get_current_report_data(&kind, &msg, &file, &line, &col, &addr);
+  const char* g = std::strstr(file ? file : "", "/glm/"); if (!g) return;                       // only undefined behaviour executed inside GLM sources counts
+  if (glmx::g_san_reports++ == 0) { std::snprintf(glmx::g_san_msg, sizeof glmx::g_san_msg, "UB %s at %s:%u:%u: %s", kind, g + 1, line, col, msg); glmx::g_san_line = line; }
+}
+extern "C" void __asan_on_error(void) { if (glmx::g_san_reports++ == 0) { std::snprintf(glmx::g_san_msg, sizeof glmx::g_san_msg, "AddressSanitizer error (out-of-bounds / misaligned / invalid access)"); glmx::g_san_line = 1; } }
+#endif
+
 namespace glmx {
 
 // ---------------------------------------------------------------- bit helpers
@@ -107,8 +121,11 @@ struct Outcome {
   bool fail; int vclass; int kf; bool nontrivial; int oclass;
   int ngot, nwant; uint64_t got[20], want[20]; char msg[160];
   uint64_t state; bool has_state;   // explicit-state ops: canonical hash of the state reached by this case
+  uint64_t dig; bool has_dig;       // observation digest of this case (differential configurations compare per-op sums)
+  void dg(uint64_t v) { dig = mix64(dig, v); has_dig = true; }
+  uint64_t case_digest() const { if (has_dig) return dig; uint64_t h = 0x51ed; for (int i = 0; i < ngot; ++i) h = mix64(h, got[i]); return h; }
   void st(uint64_t h) { state = h; has_state = true; }
-  void reset() { has_state = false; fail = false; vclass = 0; kf = -1; nontrivial = true; oclass = -1; ngot = nwant = 0; msg[0] = 0; }
+  void reset() { has_state = false; has_dig = false; dig = 0x9d1f; fail = false; vclass = 0; kf = -1; nontrivial = true; oclass = -1; ngot = nwant = 0; msg[0] = 0; }
   void res(uint64_t a) { got[0] = a; ngot = 1; }
   void res(uint64_t a, uint64_t b) { got[0] = a; got[1] = b; ngot = 2; }
   void exp(uint64_t a) { want[0] = a; nwant = 1; }
@@ -132,7 +149,7 @@ struct Witness {
 };
 
 struct OpStats {
-  uint64_t evaluations = 0, nontrivial = 0, outhash = 0; std::vector<uint64_t> cls;
+  uint64_t evaluations = 0, nontrivial = 0, outhash = 0, digest = 0; std::vector<uint64_t> cls;
   struct Dom { std::string name; uint64_t size, done; bool complete, exhaustive; double wall; };
   std::vector<Dom> doms;
   std::vector<std::pair<Case, Outcome>> samples;
@@ -147,6 +164,7 @@ struct Engine {
   std::vector<std::string> assumptions;
   std::map<std::string, std::string> extra_json;  // driver specific evidence keys (raw JSON values)
   double deadline_s = 2400;
+  uint64_t cap = 0; bool quiet = false;   // cap: domains larger than this are enumerated on the sub-lattice {0, s, 2s, ...} with s = ceil(size/cap) (differential / sanitizer runs)
   int nthreads = 0;
 
   Op& add(const std::string& name, CheckFn fn) { ops.emplace_back(); ops.back().name = name; ops.back().fn = fn; return ops.back(); }
@@ -160,7 +178,7 @@ struct Engine {
   }
 
   int main(int argc, char** argv) {
-    std::string tier = "quick", out = "", rop = "", rwords = "", only = "";
+    std::string tier = "quick", out = "", rop = "", rwords = "", only = "", dump_op = "", dump_file = "", show_index = "";
     for (int i = 1; i < argc; ++i) {
       std::string a = argv[i];
       auto next = [&]() { return std::string(i + 1 < argc ? argv[++i] : ""); };
@@ -173,19 +191,48 @@ struct Engine {
       else if (a == "--threads") nthreads = std::atoi(next().c_str());
       else if (a == "--only") only = next();
       else if (a == "--config") config = next();
+      else if (a == "--cap") cap = std::strtoull(next().c_str(), nullptr, 10);
+      else if (a == "--quiet") quiet = true;
+      else if (a == "--dump-op") dump_op = next();
+      else if (a == "--dump-file") dump_file = next();
+      else if (a == "--show-index") show_index = next();
       else if (a == "--list") { for (auto& o : ops) std::printf("%s\n", o.name.c_str()); return 0; }
     }
     if (!nthreads) nthreads = (int)std::thread::hardware_concurrency();
     if (nthreads < 1) nthreads = 1;
     if (!rop.empty()) return replay(rop, rwords);
+    if (!dump_op.empty()) return dump(tier, dump_op, dump_file, show_index);
     return run(tier, out, only);
+  }
+
+  // differential support: write the per-case digests of one op (in enumeration order), or show one case
+  int dump(const std::string& tier, const std::string& name, const std::string& file, const std::string& show) {
+    for (auto& op : ops) if (op.name == name) {
+      const std::vector<Domain>& doms = (tier == "thorough" && !op.thorough.empty()) ? op.thorough : op.quick;
+      if (!show.empty()) { size_t d = std::strtoull(show.c_str(), nullptr, 10); uint64_t i = std::strtoull(show.substr(show.find(':') + 1).c_str(), nullptr, 10);
+        if (d >= doms.size()) return 2; const uint64_t sc = (cap && doms[d].size > cap) ? (doms[d].size + cap - 1) / cap : 1; if (i * sc >= doms[d].size) return 2; Case c; c.n = doms[d].words; Outcome o; doms[d].at(i * sc, c.w); o.reset(); op.fn(c, o);
+        std::printf("{\"in\": %s, \"got\": %s, \"digest\": \"0x%" PRIx64 "\"}\n", hexes(c.w, c.n).c_str(), hexes(o.got, o.ngot).c_str(), o.case_digest()); return 0; }
+      FILE* f = std::fopen(file.c_str(), "wb"); if (!f) return 2;
+      for (size_t d = 0; d < doms.size(); ++d) { const uint64_t sc = (cap && doms[d].size > cap) ? (doms[d].size + cap - 1) / cap : 1; const uint64_t nn = (doms[d].size + sc - 1) / sc; std::vector<uint64_t> buf(nn);
+        std::vector<std::thread> th; std::atomic<uint64_t> nx(0); const uint64_t CH = 4096;
+        for (int t = 0; t < nthreads; ++t) th.emplace_back([&]() { Case c; c.n = doms[d].words; Outcome o; for (;;) { uint64_t lo = nx.fetch_add(CH); if (lo >= nn) break; uint64_t hi = std::min(nn, lo + CH); for (uint64_t i = lo; i < hi; ++i) { doms[d].at(i * sc, c.w); o.reset(); op.fn(c, o); buf[i] = o.case_digest(); } } });
+        for (auto& t : th) t.join(); std::fwrite(buf.data(), 8, buf.size(), f); }
+      std::fclose(f); return 0; }
+    std::fprintf(stderr, "glmx: dump: unknown op %s\n", name.c_str()); return 2;
   }
 
   int replay(const std::string& rop, const std::string& rwords) {
     for (auto& op : ops) if (op.name == rop) {
       Case c; c.n = 0; size_t p = 0;
       while (p < rwords.size() && c.n < MAXW) { size_t q = rwords.find(',', p); if (q == std::string::npos) q = rwords.size(); c.w[c.n++] = std::strtoull(rwords.substr(p, q - p).c_str(), nullptr, 0); p = q + 1; }
-      Outcome o; o.reset(); op.fn(c, o);
+      Outcome o; o.reset();
+#ifdef GLMX_SANITIZE
+      g_san_reports = 0;
+#endif
+      op.fn(c, o);
+#ifdef GLMX_SANITIZE
+      if (g_san_reports) { o.fail = true; o.vclass = 80; o.kf = -1; std::snprintf(o.msg, sizeof o.msg, "%s", g_san_msg); }
+#endif
       bool known = o.fail && o.kf >= 0 && kf_enabled.count(kf_ids[o.kf]);
       std::printf("REPLAY op=%s in=%s -> %s%s got=%s want=%s msg=%s\n", rop.c_str(), hexes(c.w, c.n).c_str(), o.fail ? "FAIL" : "ok",
                   known ? " (known finding)" : "", hexes(o.got, o.ngot).c_str(), hexes(o.want, o.nwant).c_str(), o.msg);
@@ -206,13 +253,15 @@ struct Engine {
       if (!only.empty() && op.name.find(only) == std::string::npos) continue;
       const std::vector<Domain>& doms = (tier == "thorough" && !op.thorough.empty()) ? op.thorough : op.quick;
       st.cls.assign(op.classes.size() + 1, 0);
-      for (const Domain& dom : doms) {
+      for (const Domain& dom0 : doms) {
+        const uint64_t stridecap = (cap && dom0.size > cap) ? (dom0.size + cap - 1) / cap : 1;
+        Domain dom = dom0; if (stridecap > 1) { dom.size = (dom0.size + stridecap - 1) / stridecap; dom.name = dom0.name + " [every " + std::to_string(stridecap) + "th]"; dom.exhaustive = false; }
         double tdom = elapsed();
         const uint64_t CH = dom.size > (1ull << 26) ? (1ull << 18) : (dom.size > (1ull << 16) ? (1ull << 12) : 256);
         const uint64_t nch = (dom.size + CH - 1) / CH;
         std::atomic<uint64_t> nextc(0), done(0); std::mutex mu; std::atomic<bool> stop(false);
         auto worker = [&]() {
-          uint64_t ev = 0, nt = 0, hh = 0; std::vector<uint64_t> cl(st.cls.size(), 0);
+          uint64_t ev = 0, nt = 0, hh = 0, dsum = 0; const uint64_t domsalt = mix64(0x77, std::hash<std::string>()(dom0.name)); std::vector<uint64_t> cl(st.cls.size(), 0);
           std::map<std::string, Witness> lv; std::unordered_set<uint64_t> lstates;
           Case c; Outcome o; c.n = dom.words;
           for (;;) {
@@ -221,12 +270,19 @@ struct Engine {
             if ((ch & 63) == 0 && elapsed() > deadline_s) { stop = true; break; }
             uint64_t lo = ch * CH, hi = std::min(dom.size, lo + CH);
             for (uint64_t i = lo; i < hi; ++i) {
-              dom.at(i, c.w); o.reset(); op.fn(c, o);
+#ifdef GLMX_SANITIZE
+              g_san_reports = 0;
+#endif
+              dom0.at(i * stridecap, c.w); o.reset(); op.fn(c, o);
+#ifdef GLMX_SANITIZE
+              if (g_san_reports) { o.fail = true; o.vclass = 80; o.kf = -1; std::snprintf(o.msg, sizeof o.msg, "%s", g_san_msg); o.ngot = 1; o.got[0] = g_san_line; o.nwant = 0; }
+#endif
               ++ev; if (o.nontrivial) ++nt;
+              dsum += mix64(mix64(domsalt, i * stridecap), o.case_digest());
               if (o.has_state) lstates.insert(o.state);
               if (o.oclass >= 0 && (size_t)o.oclass < cl.size()) ++cl[o.oclass];
               if (o.fail) {
-                char key[64]; std::snprintf(key, sizeof key, "|%d|%d", o.vclass, o.kf);
+                char key[64]; if (o.vclass == 80) std::snprintf(key, sizeof key, "|80|L%u", (unsigned)o.got[0]); else std::snprintf(key, sizeof key, "|%d|%d", o.vclass, o.kf);
                 std::string k = op.name + key;
                 auto it = lv.find(k);
                 if (it == lv.end()) { Witness w; w.op = op.name; w.domain = dom.name; w.index = i; w.c = c; w.o = o; w.count = 1; lv[k] = w; }
@@ -236,7 +292,7 @@ struct Engine {
             done += hi - lo;
           }
           std::lock_guard<std::mutex> g(mu);
-          st.evaluations += ev; st.nontrivial += nt; (void)hh;
+          st.evaluations += ev; st.nontrivial += nt; st.digest += dsum; (void)hh;
           st.states.insert(lstates.begin(), lstates.end());
           for (size_t k = 0; k < cl.size(); ++k) st.cls[k] += cl[k];
           for (auto& kv : lv) {
@@ -258,7 +314,7 @@ struct Engine {
         st.doms.push_back({dom.name, dom.size, done.load(), complete, dom.exhaustive, elapsed() - tdom});
         // samples: first, middle, last case of the first domain and first of the others
         std::vector<uint64_t> si; si.push_back(0); if (st.samples.size() < 3 && dom.size > 2) { si.push_back(dom.size / 2); si.push_back(dom.size - 1); }
-        for (uint64_t i : si) if (i < dom.size && st.samples.size() < 6) { Case c; c.n = dom.words; Outcome o; dom.at(i, c.w); o.reset(); op.fn(c, o); st.samples.push_back({c, o}); }
+        for (uint64_t i : si) if (i < dom.size && st.samples.size() < 6) { Case c; c.n = dom.words; Outcome o; dom0.at(i * stridecap, c.w); o.reset(); op.fn(c, o); st.samples.push_back({c, o}); }
       }
       tot_eval += st.evaluations; tot_nontriv += st.nontrivial;
     }
@@ -267,6 +323,7 @@ struct Engine {
     int engine_err = 0;
     auto self = [&](std::map<std::string, Witness>& m) {
       for (auto& kv : m) for (auto& op : ops) if (op.name == kv.second.op) {
+        if (kv.second.o.vclass == 80) continue;   // sanitizer reports are de-duplicated per location by the runtime: replay them in a fresh process
         Outcome o; o.reset(); op.fn(kv.second.c, o);
         if (!o.fail || o.vclass != kv.second.o.vclass || o.kf != kv.second.o.kf || o.ngot != kv.second.o.ngot ||
             std::memcmp(o.got, kv.second.o.got, sizeof(uint64_t) * o.ngot)) {
@@ -302,7 +359,7 @@ struct Engine {
       bool firstop = true;
       for (size_t oi = 0; oi < ops.size(); ++oi) {
         OpStats& st = stats[oi]; if (st.doms.empty()) continue;
-        std::fprintf(f, "%s  {\"name\": \"%s\", \"evaluations\": %" PRIu64 ", \"nontrivial\": %" PRIu64 ", \"states\": %zu, \"note\": \"%s\", \"domains\": [", firstop ? "" : ",\n", jesc(ops[oi].name).c_str(), st.evaluations, st.nontrivial, st.states.size(), jesc(ops[oi].note).c_str());
+        std::fprintf(f, "%s  {\"name\": \"%s\", \"evaluations\": %" PRIu64 ", \"nontrivial\": %" PRIu64 ", \"states\": %zu, \"digest\": \"0x%" PRIx64 "\", \"note\": \"%s\", \"domains\": [", firstop ? "" : ",\n", jesc(ops[oi].name).c_str(), st.evaluations, st.nontrivial, st.states.size(), st.digest, jesc(ops[oi].note).c_str());
         firstop = false;
         for (size_t d = 0; d < st.doms.size(); ++d)
           std::fprintf(f, "%s{\"name\": \"%s\", \"size\": %" PRIu64 ", \"done\": %" PRIu64 ", \"complete\": %s, \"exhaustive_space\": %s, \"wall_s\": %.3f}", d ? "," : "", jesc(st.doms[d].name).c_str(), st.doms[d].size, st.doms[d].done, st.doms[d].complete ? "true" : "false", st.doms[d].exhaustive ? "true" : "false", st.doms[d].wall);
@@ -328,7 +385,7 @@ struct Engine {
       std::fprintf(f, "\n}\n"); std::fclose(f);
     }
     std::fprintf(stderr, "glmx[%s/%s/%s]: %" PRIu64 " evaluations, %zu violation classes, %zu known-finding classes, %.1fs%s\n", property.c_str(), config.c_str(), tier.c_str(), tot_eval, viol.size(), known.size(), wall, all_complete ? "" : " (DEADLINE HIT: incomplete)");
-    for (auto& kv : viol) std::fprintf(stderr, "  VIOL %s x%" PRIu64 " in=%s got=%s want=%s : %s\n", kv.first.c_str(), kv.second.count, hexes(kv.second.c.w, kv.second.c.n).c_str(), hexes(kv.second.o.got, kv.second.o.ngot).c_str(), hexes(kv.second.o.want, kv.second.o.nwant).c_str(), kv.second.o.msg);
+    if (!quiet) for (auto& kv : viol) std::fprintf(stderr, "  VIOL %s x%" PRIu64 " in=%s got=%s want=%s : %s\n", kv.first.c_str(), kv.second.count, hexes(kv.second.c.w, kv.second.c.n).c_str(), hexes(kv.second.o.got, kv.second.o.ngot).c_str(), hexes(kv.second.o.want, kv.second.o.nwant).c_str(), kv.second.o.msg);
     if (engine_err) return 2;
     return viol.empty() ? 0 : 1;
   }
